@@ -975,6 +975,14 @@ func (c *Client) backwards(
 		verifiedHeader = interimHeader
 	}
 
+	// the hash chain must end at the very header the caller is going to trust: newHeader was
+	// fetched before (and independently of) the headers the chain was walked with
+	if !bytes.Equal(verifiedHeader.Hash(), newHeader.Hash()) {
+		return ErrInvalidHeader{
+			fmt.Errorf("header %X at height %d is not the one the trusted hash chain leads to (%X)",
+				newHeader.Hash(), newHeader.Height, verifiedHeader.Hash())}
+	}
+
 	return nil
 }
 
